@@ -264,7 +264,7 @@ def fmt_seq(seq):
     return ' ; '.join('%s "%s"' % (k, t.replace('\r', '\\r')) for k, t in seq) or '(nothing)'
 
 
-def check_templates(ck, prog, eng):
+def check_templates(ck, prog, eng, deep=False):
     mod = prog.module('ebb_motion')
     extracted = {'legacy': {}, 'ebb3': {}}
     n_sites = 0
@@ -321,6 +321,24 @@ def check_templates(ck, prog, eng):
                   fn.loc(), key='%s::template[%s]' % (fn.qualname, ','.join(sorted(present))))
             extracted['ebb3'][(name, present)] = seqs
             n_sites += sum(len(s) for s in seqs)
+            if deep:
+                # thorough: on paths where a command is NOT acknowledged the helper must have sent a
+                # prefix of the documented row and nothing after the failure ("and nothing else")
+                params = fn.params[1:]
+                over = {p_: (Sym.var(p_) if p_ in present else NONE) for p_ in opts}
+                for o in eng.run(fn.name, OK, overrides=over, inject=False):
+                    if o.kind == 'raise':
+                        continue
+                    seq = []
+                    for e in o.state.effects:
+                        if e.kind == 'summary' and e.target in ('command', 'query') and e.args[0].wrote:
+                            seq.append((e.target, render(e.args[1] if len(e.args) > 1 else None, params)))
+                        elif is_port_call(e, ('write',)):
+                            seq.append(('write', render(e.args[0] if e.args else None, params)))
+                    ck.ob('C06-D1-template-prefix', inst, tuple(seq) == want[:len(seq)],
+                          '%s: on a path where a command failed it sent %s, which is not a prefix '
+                          'of the documented sequence %s' % (fn.qualname, fmt_seq(seq), fmt_seq(want)),
+                          fn.loc(), key='%s::template-prefix' % fn.qualname)
     for name, fn in sorted(methods.items()):
         if name in EBB3_SPEC or name in ELSEWHERE['ebb3'] or name.startswith('__') or \
                 name in ('disconnect', 'record_error', 'find_first', '_get_port_name',
@@ -893,7 +911,7 @@ def check_no_port(ck, prog):
     ck.floor("legacy helpers taking a port", n, 24)
 
 
-def analyse(ck, prog):
+def analyse(ck, prog, deep=False):
     poly.INT_VARS.clear()
     base, cls, family = most_derived(prog)
     eng = Engine(prog, cls, inject=False)
@@ -902,7 +920,7 @@ def analyse(ck, prog):
         poly.INT_VARS.update(f.params)
     poly.INT_VARS.add('@n')
     try:
-        extracted = check_templates(ck, prog, eng)
+        extracted = check_templates(ck, prog, eng, deep)
         check_pairs(ck, prog, eng, extracted)
         check_motors_enable(ck, eng)
         for layer in ('legacy', 'ebb3'):
@@ -933,4 +951,4 @@ def run(ck, prog, tier):
                   'helpers\' docstrings (SPEC tables in vf/props/c06.py)']
     ck.assumptions = ['arguments are integers (firmware ranges); str.format/f-string semantics',
                       'the transport primitives deliver the text unchanged (C05-D1, C07-D1)']
-    analyse(ck, prog)
+    analyse(ck, prog, tier == 'thorough')
